@@ -5718,6 +5718,9 @@ class CodegenCtx:
                         counter_val = len(out_expr.default_value)
                     contents.add("// initialize append counter for", out_expr.name)
                     contents.add(f"state->{out_expr.name}_counter = {counter_val};")
+                    if out_expr.holds_a(OutputStorageType.STR) and out_expr.str_null and out_expr.default_value is None and not self._is_dynamic(out_expr):
+                        # an empty terminated string is terminated too
+                        contents.add(f"state->c.{out_expr.name}[0] = 0;")
                 if out_expr.default_value is not None:
                     contents.add("// initialize default for", out_expr.name)
                     if out_expr.holds_buflike():
@@ -5743,6 +5746,8 @@ class CodegenCtx:
                     else:
                         contents.add(f"// allocate space for {out_expr.name}")
                         contents.add(f"state->c.{out_expr.name} = malloc({out_expr.str_size});")
+                        if out_expr.str_null:
+                            contents.add(f"state->c.{out_expr.name}[0] = 0;")
 
             # Run any start actions
             if self.start_actions:
